@@ -31,7 +31,7 @@ def movers(rng, n):
     for _ in range(n):
         c = rng.random()
         if c < 0.35:
-            out.append({'k': 'pseudo', 'm': 'li', 'ops': [{'r': rng.choice([5, 8, 15])}, {'i': rng.choice([0, 7, 31, 100, 2047, -2048, 0x12345])}]})
+            out.append({'k': 'pseudo', 'm': 'li', 'ops': [{'r': rng.choice([5, 8, 15])}, {'i': rng.choice([0, 7, 31, 100, 2047, -2048, 0x12345, 0xffffffff, 0xfffff800, 0xfffffff0])}]})       # (the last three: small only as 32-bit words)
         elif c < 0.7:
             out.append(randprog.plain_inst(rng, 1.0))
         elif c < 0.74:
